@@ -17,6 +17,9 @@ def atom_name(n, roots):
     name, i, fs = fp
     if i in roots:
         return ".".join([roots[i]] + fs)
+    for r_, alias in roots.items():
+        if i is not None and r_ is not None and canon(i) == canon(r_):
+            return ".".join([alias] + fs)          # the root under another name (parameter of an inlined helper)
     return None
 
 
